@@ -3,6 +3,7 @@ package eng
 import (
 	"fmt"
 	"os"
+	"strings"
 	"go/constant"
 	"go/token"
 	"go/types"
@@ -589,6 +590,12 @@ func (e *Engine) binop(st *State, op token.Token, a, b Val, opT types.Type, resT
 		return scalar(e.wrap(e.truncDiv(x, y), resT))
 	case token.REM:
 		e.oblige(st, "div", "", pos, tb.Neq(y, tb.Int(0)), "integer division by zero")
+		// (a >> s) % 2 on an unsigned a: bit s of a
+		if c, ok := y.ConstInt(); ok && c == 2 && x.Op == "app" && strings.HasPrefix(x.Name, "bit_shr_") && len(x.Args) == 2 {
+			if _, signed, isInt := intBits(opT); isInt && !signed {
+				return scalar(e.getbit(st, x.Args[0], x.Args[1]))
+			}
+		}
 		q := e.truncDiv(x, y)
 		return scalar(tb.Sub(x, tb.Mul(q, y)))
 	case token.LSS:
@@ -647,6 +654,14 @@ func (e *Engine) binop(st *State, op token.Token, a, b Val, opT types.Type, resT
 		if x.Sort == SBool {
 			return scalar(tb.Or(x, y))
 		}
+		// x | (1 << s) on an unsigned type: set bit s
+		if bits, signed, isInt := intBits(resT); isInt && !signed {
+			for _, pr := range [][2]*Term{{x, y}, {y, x}} {
+				if s, ok := pow2Arg(pr[1]); ok {
+					return scalar(e.setbit(st, pr[0], s, bits))
+				}
+			}
+		}
 		return scalar(e.bitUF(st, "or", x, y, resT))
 	case token.XOR:
 		if x.Sort == SBool {
@@ -679,6 +694,39 @@ var shiftCountType types.Type
 func (e *Engine) bitUF(st *State, name string, x, y *Term, T types.Type) *Term {
 	r := e.tb.App("bit_"+name+"_"+typeKey(T), SInt, x, y)
 	e.wfLeaf(st, Leaf{Kind: LKInt, Typ: T, Sort: SInt}, r)
+	return r
+}
+
+// pow2Arg recognises 1 << s (possibly wrapped to the operand width) and returns s.
+func pow2Arg(t *Term) (*Term, bool) {
+	if t.Op == "app" && t.Name == "pow2" && len(t.Args) == 1 {
+		return t.Args[0], true
+	}
+	if t.Op == "mod" && len(t.Args) == 2 {
+		return pow2Arg(t.Args[0])
+	}
+	return nil, false
+}
+
+// getbit(a, s): bit s of the non-negative integer a (uninterpreted; axioms below and in the script prelude).
+func (e *Engine) getbit(st *State, a, s *Term) *Term {
+	tb := e.tb
+	r := tb.App("getbit", SInt, a, s)
+	e.Assumed["bit operations: x | 1<<s sets bit s and leaves the other bits, (x >> s) % 2 reads bit s, 0 has no bits (uninterpreted getbit/setbit with these axioms, valid for unsigned machine integers)"] = true
+	return r
+}
+
+// setbit(x, s) = x | 1<<s for an unsigned type of the given width.
+func (e *Engine) setbit(st *State, x, s *Term, bits int) *Term {
+	tb := e.tb
+	r := tb.App("setbit", SInt, x, s)
+	inw := tb.And(tb.Le(tb.Int(0), s), tb.Lt(s, tb.Int(int64(bits))))
+	// shifting the one out of the operand gives 0: the value is unchanged
+	e.assume(st, tb.Implies(tb.Not(inw), tb.Eq(r, x)))
+	e.assume(st, tb.Implies(inw, tb.Eq(e.getbit(st, r, s), tb.Int(1))))
+	c := tb.BoundVar("c", SInt)
+	e.assume(st, tb.Forall([]*Term{c}, tb.Implies(tb.And(inw, tb.Not(tb.Eq(c, s))), tb.Eq(tb.App("getbit", SInt, r, c), tb.App("getbit", SInt, x, c))), []*Term{tb.App("getbit", SInt, r, c)}))
+	e.assume(st, tb.And(tb.Le(tb.Int(0), r), tb.Lt(r, tb.BigInt(new(big.Int).Lsh(big.NewInt(1), uint(bits))))))
 	return r
 }
 
